@@ -7,7 +7,7 @@
 and passes them to `pom.HiddenMarkovModel.from_matrix(transition_matrix, distributions, start_probabilities, ...)`.
 The three source expressions are EVALUATED here in exact rational arithmetic by a small interpreter (scalars, vectors,
 matrices with numpy broadcasting of + - * /; `np.identity` / `np.eye` / `np.ones` / `np.zeros` / `np.full`,
-`scipy.special.binom` / `math.comb`, `range`, `.sum()`, `len`), for the 3-state methods (`hmm-germline`, `hmm`) and the
+`scipy.special.binom` / `math.comb`, `range`, `.sum()` / `np.sum`, `len` of the state list), for the 3-state methods (`hmm-germline`, `hmm`) and the
 5-state one (`hmm-tumor`).  An expression outside that subset raises (the tie is then reported broken, never silent).
 Also recorded: the argument list of the `from_matrix` call (which object goes where)."""
 import ast
@@ -104,8 +104,8 @@ def _ev(e, env):
             return Fraction(comb(nat(n), nat(k)))
         if f == "len" and len(args) == 1 and isinstance(args[0], list):
             return Fraction(len(args[0]))
-        if isinstance(e.func, ast.Attribute) and e.func.attr == "sum" and not e.args:
-            v = _ev(e.func.value, env)
+        if (isinstance(e.func, ast.Attribute) and e.func.attr == "sum" and not e.args) or (f in ("np.sum", "numpy.sum", "sum") and len(args) == 1):
+            v = args[0] if e.args else _ev(e.func.value, env)
             if _shape(v) == ():
                 return v
             flat = [x for row in v for x in row] if len(_shape(v)) == 2 else v
@@ -141,7 +141,7 @@ def extract(repo, o):
         raise ValueError("hmm_get_model: from_matrix is not called with (matrix, distributions, starts) by name")
     t_name, d_name, s_name = (a.id for a in call.args[:3])
     for n_states in (3, 5):
-        env = {d_name: [Fraction(0)] * n_states}
+        env = {d_name: [Fraction(0)] * n_states, "state_names": [Fraction(0)] * n_states}
         for name, value in assigns:
             if name in (d_name, "observations", "stdev", "state_names", "model"):
                 continue
